@@ -91,3 +91,47 @@ Theorem opendal_same_layout : forall t i f,
   od_path t i = lb_path t i /\ od_list f t = lb_list f t /\ od_list_with_size f t = lb_list_with_size f t.
 Proof. intros t i f. split; [apply od_path_eq | split; [apply od_list_eq | apply od_sizes_eq]]. Qed.
 Print Assumptions opendal_same_layout.
+
+(* The temporary NAME parses as no id - so the recursive, name-based walk ignores the temporary
+   file in whatever (sub-)directory the code puts it.  Proved from the regenerated shape
+   <parent>/<lb_tmp_dir>/<final name><lb_tmp_suffix>. *)
+Theorem tmp_name_never_parses : forall t i, wf_id i -> parse_id (lb_filename t i ++ lb_tmp_suffix) = None.
+Proof. exact tmp_name_unparsed. Qed.
+Print Assumptions tmp_name_never_parses.
+
+(* At every interleaving point between the creation of the temporary file and the rename (and
+   after an aborted copy) both listings of every type are those of the state before the write. *)
+Theorem listing_stable_during_write : forall f m t i c st,
+  R f m -> wf_id i -> N.of_nat (length c) < 2 ^ 32 -> st <> SRenamed -> forall t',
+  Permutation (lb_list (micro_state f t i c st) t') (lb_list f t') /\
+  Permutation (lb_list_with_size (micro_state f t i c st) t') (lb_list_with_size f t').
+Proof. exact listing_stable_lemma. Qed.
+Print Assumptions listing_stable_during_write.
+
+(* Ranged reads of the map: a range inside the file gives exactly len bytes from off; a
+   non-empty range reaching beyond the end is an error; any successful answer has len bytes. *)
+Theorem ranged_read_exact : forall b off len,
+  (off + len <= N.of_nat (length b) ->
+     range_of b off len = Ok (firstn (N.to_nat len) (skipn (N.to_nat off) b)) /\
+     length (firstn (N.to_nat len) (skipn (N.to_nat off) b)) = N.to_nat len) /\
+  (N.of_nat (length b) < off + len -> 0 < len -> range_of b off len = Err) /\
+  (forall s, range_of b off len = Ok s -> length s = N.to_nat len).
+Proof. exact ranged_read_lemma. Qed.
+Print Assumptions ranged_read_exact.
+
+(* The object-store adapter makes exactly the operator calls the model assumes, in that order:
+   write_bytes = filter empty chunks; operator.write - no stat/exists before it, no early return. *)
+Theorem opendal_calls_as_modelled : forall f, od_calls f = modelled_od_calls f.
+Proof. exact od_calls_lemma. Qed.
+Print Assumptions opendal_calls_as_modelled.
+
+(* Only layers known to pass requests and answers through are wrapped around the operator. *)
+Theorem opendal_layers_passthrough : forallb passthrough od_layers = true.
+Proof. exact od_layers_lemma. Qed.
+Print Assumptions opendal_layers_passthrough.
+
+(* The directory backend's read_full/read_partial/list/list_with_size/remove make exactly the
+   file-system calls the model assumes, in that order (write_bytes: write_order_as_modelled). *)
+Theorem local_calls_as_modelled : forall f, lb_calls f = modelled_lb_calls f.
+Proof. exact lb_calls_lemma. Qed.
+Print Assumptions local_calls_as_modelled.
